@@ -152,6 +152,8 @@ PURE_MACROS = set("MAX MIN VL_TYPE VL_S_ROWS VL_S_COLUMNS VL_M_ROWS VL_M_COLUMNS
                   "VNACAL_IS_UE14 VL_IS_UE14 _vnacal_calibration_get_fmin_bound _vnacal_calibration_get_fmax_bound sizeof".split())
 NEUTRAL_CALLS = [r"^\(void\)\s*memset\s*\(\s*\(void\s*\*\)\s*&\s*vaa\b", r"^_vnacal_layout\s*\(\s*&\s*vl\b", r"^va_start\s*\(", r"^va_end\s*\(",
                  r"^assert\s*\("]
+# callees that fail with the reason in errno (EINVAL: the data cannot be handled; otherwise a failed allocation)
+ERRNO_CALLEES = set(["_vnacommon_spline_calc"])
 ALLOC_RE = re.compile(r"\b(malloc|calloc|realloc|strdup)\s*\(")
 
 
@@ -507,6 +509,7 @@ class Translator(object):
         self.done = {}          # function -> (params, steps)
         self.callee_cats = {}
         self._gl, self._gs = set(), set()
+        self.errno_reports = []      # (function, category when errno == EINVAL, category otherwise)
 
     def text(self, path):
         if path not in self.texts:
@@ -670,6 +673,13 @@ class Translator(object):
             return None
         if cats and m:
             return None
+        if len(cats) == 2:
+            # if (errno == EINVAL) { report(A); } else { report(B); } return V;  - the failure of a callee that has left its
+            # reason in errno, reported in the category that goes with it (fix DI93)
+            mm = re.match(r"^if\(errno==EINVAL\)\{_vnacal_error\(\w+,VNAERR_([A-Z]+),[^;]*;\}else\{_vnacal_error\(\w+,VNAERR_([A-Z]+),[^;]*;\}"
+                          r"return(-1|NULL|HUGE_VAL);$", norm(text))
+            if mm:
+                return ("errno_report", (mm.group(1), mm.group(2)), v)
         if cats:
             if len(cats) != 1:
                 raise ContractError("%s: one refusing test reports with several categories %s" % (fn, sorted(cats)))
@@ -832,6 +842,12 @@ class Translator(object):
                         out.append('SReport (CTrue (CVar "%s")) %s %s' % (ATOMS[key], self.callee_category(callee[0]), FVAL[v]))
                         continue
                     got = self.check_body(fn, s["body"], fail)
+                    if got is not None and got[0] == "errno_report":
+                        if not re.search(r"\b(%s)\s*\(" % "|".join(ERRNO_CALLEES), s["cond"]):
+                            raise ContractError("%s: errno-dependent report under a test that calls none of %s" % (fn, sorted(ERRNO_CALLEES)))
+                        self.errno_reports.append((fn, got[1][0], got[1][1]))
+                        out.append("SAlloc %s" % FVAL[got[2]])
+                        continue
                     if got is not None and got[0] == "report" and got[1] == "SYSTEM":
                         return None
                     if got is not None and got[0] == "report":
@@ -1153,7 +1169,7 @@ def translate(srcdir):
         contracts.append((fn, fail, steps))
     add_steps, add_prefix, add_table = translate_add_common(tr)
     return {"contracts": contracts, "verror": verror_paths(srcdir), "wrappers": apply_wrappers(tr),
-            "add_common": add_steps, "add_prefix": add_prefix, "add_table": add_table,
+            "errno_reports": list(tr.errno_reports), "add_common": add_steps, "add_prefix": add_prefix, "add_table": add_table,
             "max_precision": tr.consts.get("VNACAL_MAX_PRECISION"), "vc_magic": tr.consts["VC_MAGIC"], "vn_magic": tr.consts["VN_MAGIC"]}
 
 
@@ -1182,6 +1198,11 @@ def emit(info):
     L.append("Definition gen_add_common_prefix : nat := %d%%nat." % info["add_prefix"])
     L.append("Definition gen_add_type_table : list (Z * (Z * string * string)) :=")
     L.append("  [" + "; ".join('(%d, (%d, "%s", "%s"))' % t for t in info["add_table"]) + "].")
+    L.append("")
+    L.append("(* failures of a callee that leaves its reason in errno, reported as 'if (errno == EINVAL) report(c1) else report(c2)'")
+    L.append("   in front of the first write (they are SAlloc positions in the lists above): (function, c1, c2) *)")
+    L.append("Definition gen_errno_reports : list (string * category * category) :=")
+    L.append("  [" + "; ".join('("%s", %s, %s)' % r for r in info["errno_reports"]) + "].")
     L.append("")
     L.append("(* the paths through the epilogue of _vnaerr_verror *)")
     for name, eff in info["verror"]:
